@@ -95,13 +95,15 @@ class ClassicalGate(Box):
 
     def subs(self, *args):
         data = rsubs(list(self.data.flatten()), *args)
-        return ClassicalGate(self.name, self.dom, self.cod, data)
+        return ClassicalGate(
+            self.name, self.dom, self.cod, data, _dagger=self._dagger)
 
     def lambdify(self, *symbols, **kwargs):
         from sympy import lambdify
-        data = lambdify(symbols, self.data, dict(kwargs, modules=Tensor.np))
+        data = lambdify(symbols, list(self.data.flatten()),
+                        dict(kwargs, modules=Tensor.np))
         return lambda *xs: ClassicalGate(
-            self.name, self.dom, self.cod, data(*xs))
+            self.name, self.dom, self.cod, data(*xs), _dagger=self._dagger)
 
     def grad(self, var, **params):
         if var not in self.free_symbols:
